@@ -186,33 +186,15 @@ public:
 
   static void d2r_exp(TRefIn a_in, THessRefOut H_out)
   {
-    const auto [A, B, dA_over_th, dB_over_th] = [&]() -> std::array<Scalar, 4> {
-      using std::sqrt, std::sin, std::cos;
+    using detail::cos_2, detail::sin_3, detail::cos_4, detail::sin_5;
 
-      const Scalar th2 = a_in.squaredNorm();
-      const Scalar th  = sqrt(th2);
-
-      if (th2 < Scalar(eps2)) {
-        return {
-          Scalar(0.5) - th2 / 24,
-          Scalar(1. / 6) - th2 / 120,
-          -Scalar(1) / 48,
-          -Scalar(1) / 60,
-        };
-      } else {
-        const Scalar sTh = sin(th);
-        const Scalar cTh = cos(th);
-        const Scalar th3 = th2 * th;
-        const Scalar th4 = th2 * th2;
-        const Scalar th5 = th3 * th2;
-        return {
-          (Scalar(1) - cTh) / th2,
-          (th - sTh) / th3,
-          sTh / th3 + 2 * cTh / th4 - 2 / th4,
-          -cTh / th4 - 2 / th4 + 3 * sTh / th5,
-        };
-      }
-    }();
+    // A = (1 - cos th) / th^2, B = (th - sin th) / th^3 and their derivatives w.r.t. th divided
+    // by th, all expressed through the Taylor tails (no cancellation for small th)
+    const Scalar th2        = a_in.squaredNorm();
+    const Scalar A          = -cos_2(th2);
+    const Scalar B          = -sin_3(th2);
+    const Scalar dA_over_th = sin_3(th2) + Scalar(2) * cos_4(th2);
+    const Scalar dB_over_th = Scalar(3) * sin_5(th2) - cos_4(th2);
 
     // -A * d(ad) + B * d(ad^2)
     // clang-format off
@@ -239,28 +221,9 @@ public:
 
   static void d2r_expinv(TRefIn a_in, THessRefOut H_out)
   {
-    const auto [A, dA_over_th] = [&]() -> std::array<Scalar, 2> {
-      using std::sqrt, std::cos, std::sin;
-
-      const Scalar th2 = a_in.squaredNorm();
-      const Scalar th  = sqrt(th2);
-      if (th2 < Scalar(eps2)) {
-        return {
-          Scalar(1) / Scalar(12) + th2 / Scalar(720),
-          Scalar(1) / Scalar(360),
-        };
-      } else {
-        const Scalar th3 = th2 * th;
-        const Scalar th4 = th2 * th2;
-        const Scalar sTh = sin(th);
-        const Scalar cTh = cos(th);
-        return {
-          Scalar(1) / th2 - (Scalar(1) + cTh) / (Scalar(2) * th * sTh),
-          1 / (2 * th2) + cTh * cTh / (2 * th2 * sTh * sTh) + cTh / (2 * th2 * sTh * sTh) + cTh / (2 * th3 * sTh)
-            + 1 / (2 * th3 * sTh) - 2 / th4,
-        };
-      }
-    }();
+    const Scalar th2        = a_in.squaredNorm();
+    const Scalar A          = detail::dexpinv_coef<Scalar>(th2);
+    const Scalar dA_over_th = detail::dexpinv_coef_dx_over_x<Scalar>(th2);
 
     // A * d(ad^2)
     // clang-format off
